@@ -270,7 +270,7 @@ def net_reordering_model(d, ctx):
     if d.aux(164).integers(0, 2) == 0:
         # "all real masks": any level (posteriors of a nearly inactive class,
         # magnitudes, powers)
-        level = float(10.0 ** d.aux(165).uniform(-8, 6))
+        level = float(10.0 ** d.aux(165).uniform(-30, 6))
         mask = mask * level
     which = d.choice(['dhtv', 'dhtv', 'greedy'])
     if which == 'dhtv':
